@@ -8,18 +8,19 @@ package datastore
 // ---------------------------------------------------------------------------
 // ghost trace events: the only ways state outside the process changes
 
-//@ event SbiSet()
-//@ event CacheModify(Int, string, Int)
+// SbiSet(accepted); CacheModify(store, owner, priority, succeeded)
+//@ event SbiSet(Bool)
+//@ event CacheModify(Int, string, Int, Bool)
 
 // assumed: the cache client performs one store modification per call (store, owner, priority as given)
 //@ iface (cache.Client).Modify
 //@   params ctx name opts dels upds
-//@   emits CacheModify(opts.Store, opts.Owner, opts.Priority)
+//@   emits CacheModify(opts.Store, opts.Owner, opts.Priority, r0 == nil)
 
 // assumed: the target performs one southbound set per call
 //@ iface (datastore/target.Target).Set
 //@   params ctx source
-//@   emits SbiSet()
+//@   emits SbiSet(r1 == nil)
 
 // ---------------------------------------------------------------------------
 // C03 / C07: the single place where the device is written
@@ -28,9 +29,10 @@ package datastore
 //@   props C03 C07
 //@   requires d != nil && d.config != nil
 //@   let n0 = ntrace()
-//@   modifies trace
+//@   modifies nothing
+//@   emits SbiSet(r1 == nil) if d.sbi != nil
 //@   ensures not_connected_is_error: d.sbi == nil ==> r1 != nil && r0 == nil && ntrace() == n0
-//@   ensures one_set: d.sbi != nil ==> ntrace() == n0 + 1 && emitted(n0) == SbiSet
+//@   ensures one_set: d.sbi != nil ==> ntrace() == n0 + 1 && emitted(n0) == SbiSet(r1 == nil)
 //@   ensures error_has_no_response: r1 != nil ==> r0 == nil
 
 // ---------------------------------------------------------------------------
@@ -49,8 +51,12 @@ package datastore
 //@   ensures dryrun_changes_nothing [C03]: dryRun ==> ntrace() == n0
 //@   internal rejected_changes_nothing [C03]: called(HasErrors) && callres(HasErrors) ==> ntrace() == n0 && r1 == nil && r0 != nil
 //@   internal failed_apply_persists_nothing [C07]: called(applyIntent) && callres(applyIntent, 0, 1) != nil ==> r1 != nil && ntrace() <= n0 + 1
-//@   ensures device_first [C03 C07]: ntrace() > n0 ==> emitted(n0) == SbiSet
-//@   ensures device_written_once [C03 C07]: forall(i, n0 + 1, ntrace(), emitted(i) != SbiSet)
+//@   ensures device_first [C03 C07]: ntrace() > n0 ==> isev(emitted(n0), SbiSet)
+//@   ensures device_written_once [C03 C07]: forall(i, n0 + 1, ntrace(), !isev(emitted(i), SbiSet))
+//@   ensures rejected_by_device_persists_nothing [C07]: ntrace() > n0 && !evarg(emitted(n0), SbiSet, 0) ==> r1 != nil && ntrace() == n0 + 1
+//@   ensures success_means_every_write_succeeded [C07 C02]: r1 == nil ==> forall(i, n0, ntrace(),
+//@            (isev(emitted(i), SbiSet) ==> evarg(emitted(i), SbiSet, 0)) && (isev(emitted(i), CacheModify) ==> evarg(emitted(i), CacheModify, 3)))
+//@   ensures failed_write_is_last [C07]: forall(i, n0, ntrace(), isev(emitted(i), CacheModify) && !evarg(emitted(i), CacheModify, 3) ==> i == ntrace() - 1 && r1 != nil)
 //@   ensures only_modifies_after_device [C07]: forall(i, n0 + 1, ntrace(), isev(emitted(i), CacheModify) || (i == ntrace() - 1 && isev(emitted(i), TimerStart)))
 //@   ensures stores_touched [C07 C02]: forall(i, n0 + 1, ntrace(), isev(emitted(i), CacheModify) ==>
 //@            evarg(emitted(i), CacheModify, 0) == INTENDED || evarg(emitted(i), CacheModify, 0) == CONFIG)
@@ -69,7 +75,7 @@ package datastore
 //@   loop 1 invariant ntrace() == n0 && inv_Transaction(transaction)
 //@   loop 2 invariant ntrace() == n0 && inv_Transaction(transaction)
 //@   loop 3 invariant inv_Transaction(transaction) && $map == transaction.newIntents && !dryRun
-//@   loop 3 invariant ntrace() >= n0 + 1 && emitted(n0) == SbiSet
-//@   loop 3 invariant forall(i, n0 + 1, ntrace(), isev(emitted(i), CacheModify) && evarg(emitted(i), CacheModify, 0) == INTENDED &&
+//@   loop 3 invariant ntrace() >= n0 + 1 && isev(emitted(n0), SbiSet) && evarg(emitted(n0), SbiSet, 0)
+//@   loop 3 invariant forall(i, n0 + 1, ntrace(), isev(emitted(i), CacheModify) && evarg(emitted(i), CacheModify, 0) == INTENDED && evarg(emitted(i), CacheModify, 3) &&
 //@            present(transaction.newIntents, evarg(emitted(i), CacheModify, 1)) &&
 //@            evarg(emitted(i), CacheModify, 2) == transaction.newIntents[evarg(emitted(i), CacheModify, 1)].priority)
